@@ -202,14 +202,18 @@ def run_component(name, pi, seed, labelers):
         if name in ('qlearning', 'sarsa', 'expectedsarsa', 'doubleq'):
             import msdm.algorithms.tdlearning as td
             cls = {'qlearning': td.QLearning, 'sarsa': td.SARSA, 'expectedsarsa': td.ExpectedSARSA, 'doubleq': td.DoubleQLearning}[name]
-            learner = cls(episodes=6, step_size=0.5, rand_choose=0.3, softmax_temp=0.5, seed=seed)
-            outs = []
-            for _ in range(2):
-                res = learner.train_on(mdp)
-                outs.append(canon([{s: dict(v) for s, v in dict(res.q_values).items()}, res.event_listener_results.episode_rewards]))
-            if outs[0] != outs[1]:
-                raise SecondCallDiffers(name)
-            return outs[0]
+            both = []
+            # soft exploration, and the purely greedy setting whose only draws break ties between equal Q-values
+            for rc, temp in ((0.3, 0.5), (0.0, 0.0)):
+                learner = cls(episodes=6, step_size=0.5, rand_choose=rc, softmax_temp=temp, seed=seed)
+                outs = []
+                for _ in range(2):
+                    res = learner.train_on(mdp)
+                    outs.append(canon([{s: dict(v) for s, v in dict(res.q_values).items()}, res.event_listener_results.episode_rewards]))
+                if outs[0] != outs[1]:
+                    raise SecondCallDiffers(name)
+                both.append(outs[0])
+            return both
         if name == 'rmax':
             from msdm.algorithms.rmax import RMAX
             learner = RMAX(episodes=4, rmax=float(np.max(mdp.reward_matrix)), num_transition_samples=2, seed=seed)
